@@ -166,6 +166,7 @@ func main() {
 	var normDone []string
 	var normOverlay map[string][]byte
 	normTried := false
+	constTried := false
 	var inls []*Prog
 	var inlDone [][]string
 	inlTried := false
@@ -192,6 +193,28 @@ func main() {
 					norm, normDone, normOverlay = np, done, merged
 				} else if os.Getenv("FCHECK_DEBUG") != "" {
 					fmt.Println("normalisation discarded:", err)
+				}
+			}
+		}
+		if !constTried {
+			constTried = true
+			if hasNewHelpers(p) {
+				bp, bo := p, overlay
+				if norm != nil {
+					bp, bo = norm, normOverlay
+				}
+				if files, done := NormaliseConstArgs(*repo, bp, bo); len(done) > 0 {
+					if np, err := Load(*repo, files, "", true); err == nil {
+						norm, normOverlay = np, files
+						normDone = append(normDone, done...)
+						if d := os.Getenv("FCHECK_DUMP_INLINED"); d != "" {
+							for k, v := range files {
+								os.WriteFile(filepath.Join(d, "const_"+filepath.Base(k)), v, 0o644)
+							}
+						}
+					} else if os.Getenv("FCHECK_DEBUG") != "" {
+						fmt.Println("constant-argument normalisation discarded:", err)
+					}
 				}
 			}
 		}
@@ -295,6 +318,8 @@ func main() {
 					break
 				}
 			}
+			var bestRep *Report
+			var bestCtx *Ctx
 			for ai, inl := range inls {
 				if inl == nil || !wasFailing {
 					continue
@@ -314,8 +339,18 @@ func main() {
 				if rep3.failing(vdir) == 0 {
 					rep3.Add(id+".normalisation", "extracted helpers expanded at their call sites", "-", OK, "")
 					rep, c = rep3, c3
+					bestRep = nil
 					break
 				}
+				if bestRep == nil || rep3.failing(vdir) <= bestRep.failing(vdir) {
+					bestRep, bestCtx = rep3, c3
+				}
+			}
+			if bestRep != nil && bestRep.failing(vdir) < rep.failing(vdir) {
+				// every form fails: the findings of the form with the fewest are the ones to read (the others add what a
+				// rule cannot see through the helper on top of the same defect)
+				bestRep.Add(id+".normalisation", "findings reported on the program with extracted helpers expanded", "-", OK, "")
+				rep, c = bestRep, bestCtx
 			}
 		}
 		if code == 0 && *tier == "thorough" && *mutant == "" && !*noEvidence {
